@@ -1,6 +1,7 @@
 package main
 
 import (
+	"strconv"
 	"bytes"
 	"fmt"
 	"go/parser"
@@ -45,7 +46,15 @@ func (x *c13ctx) call(text []byte, argv []string, note string) {
 	r, err := c.W.Srv.Call(req)
 	c.Res.Evaluations++
 	viol := func(desc string) {
-		c.Report(Violation{Desc: desc, Grammar: string(text), InputHex: hexOf(text), Gen: strings.Join(argv, " "), Opts: note}, "")
+		known := ""
+		if strings.HasPrefix(note, "dense first-call graph n=") && (strings.Contains(desc, "does not terminate") || strings.Contains(desc, "died")) {
+			// finding D36: the cycle enumeration of the left-recursion analysis is factorial in the
+			// size of a strongly connected component (matcher: this family, 10 or more rules)
+			if n, _ := strconv.Atoi(strings.TrimPrefix(note, "dense first-call graph n=")); n >= 10 {
+				known = "dense-cycle-enumeration"
+			}
+		}
+		c.Report(Violation{Desc: desc, Grammar: string(text), InputHex: hexOf(text), Gen: strings.Join(argv, " "), Opts: note}, known)
 	}
 	if err == hook.ErrDied {
 		viol("pigeon died (fatal error / os.Exit inside main) on this input")
@@ -250,6 +259,31 @@ func runC13(c *ShardCtx) {
 			x.build(text, 0)
 			x.build(text, 31)
 			x.build(text, 4)
+		}
+	}
+	// (g) dense first-call graphs: n rules that all begin with all n rules (one strongly connected
+	// component with every possible cycle); the left-recursion analysis runs with and without the flag
+	{
+		top := 8 // (0.4 s; 9 rules take 2.3 s, 10 rules 30 s: finding D36)
+		if c.Thorough() {
+			top = 11
+		}
+		for n := 2; n <= top; n++ {
+			idx++
+			if !c.Mine(idx) {
+				continue
+			}
+			var sb strings.Builder
+			for i := 0; i < n; i++ {
+				fmt.Fprintf(&sb, "R%d <-", i)
+				for j := 0; j < n; j++ {
+					fmt.Fprintf(&sb, " R%d 'x' /", j)
+				}
+				sb.WriteString(" 'y'\n")
+			}
+			c.Res.Grammars++
+			x.call([]byte(sb.String()), nil, fmt.Sprintf("dense first-call graph n=%d", n))
+			x.call([]byte(sb.String()), []string{"-support-left-recursion"}, fmt.Sprintf("dense first-call graph n=%d", n))
 		}
 	}
 	// (a) valid texts x flag sets
